@@ -193,8 +193,13 @@ structure VOut where
   fileExists : Bool := true
   parse : ParseOut := .ok
   search : Lookup := .notFound
-  /-- `Validator(schema_def).validate(doc, strict = (profile == STRICT), section_schemas)` -/
+  /-- The entries of `Validator(schema_def).validate(doc, strict = (profile == STRICT), section_schemas)` that the
+  has_schema block treats as *blocking*: all of them in the code as pinned; those with severity ≠ "warning" in the
+  shape proposed as fix F37 (which shape the source has is regenerated as `Gen.validateBlockingShape`, and the
+  harness splits the validator's list accordingly). -/
   errs : List VErr := []
+  /-- the remaining entries (severity = "warning"), which that shape appends to `warnings` only; [] today -/
+  softWarnings : List VErr := []
   /-- `Validator(None).validate(doc, strict=False, section_schemas)` (the no-schema branch) -/
   errsNoSchema : List VErr := []
   /-- re-validation after `repair(...)` when fix=True -/
@@ -325,7 +330,8 @@ def vPost (a : VArgs) (o : VOut) (r2 : Envelope) : Envelope :=
 /-- The envelope of the main path (no early return, no escaping exception). -/
 def vResult (B : Builtins) (a : VArgs) (o : VOut) (p : Profile) : Envelope :=
   let r0 : Envelope := { status := some .success, vstatus := some .unvalidated, valid := some false, verrs := some [] }
-  let r1 := { r0 with debugInfo := a.debugGrammar && (vDefn a o).isSome }
+  let r1 := { r0 with debugInfo := a.debugGrammar && (vDefn a o).isSome,
+                      warnings := if vHasSchema B a o then o.softWarnings else [] }
   vPost a o (vDecide p (vBuiltin B a) (vDefn a o) a.schemaName o.errs o.errsNoSchema r1)
 
 def ValidateExec (B : Builtins) (a : VArgs) (o : VOut) : Except Exc Envelope :=
